@@ -311,6 +311,11 @@ func famOdd() []archive {
 	out = append(out, archive{Family: "odd", Kids: []node{{Kind: "zip", Name: "p/q/r/n1.zip", Kids: deepFile}, {Kind: "file", Name: "h", Size: 1}}})
 	out = append(out, archive{Family: "odd", Kids: []node{{Kind: "file", Name: "g", Size: 1}, {Kind: "zip", Name: "p/q/r/n1.zip", Kids: deepFile}, {Kind: "file", Name: "p/h", Size: 1}}})
 	out = append(out, archive{Family: "odd", Kids: []node{{Kind: "zip", Name: "p/q/n1.zip", Kids: []node{{Kind: "zip", Name: "u/v/n2.zip", Kids: []node{{Kind: "file", Name: "f", Size: 2}}}, {Kind: "file", Name: "g", Size: 1}}}, {Kind: "file", Name: "h", Size: 1}}})
+	// directories whose names consist of dots only (three or more: legal names, not parent references) count towards the depth
+	out = append(out, archive{Family: "odd", Kids: []node{{Kind: "file", Name: ".../f", Size: 2}}})
+	out = append(out, archive{Family: "odd", Kids: []node{{Kind: "file", Name: ".../..../...../payload.txt", Size: 3}, {Kind: "file", Name: "h", Size: 1}}})
+	out = append(out, archive{Family: "odd", Kids: []node{{Kind: "file", Name: "a/.../b/..../f", Size: 2}}})
+	out = append(out, archive{Family: "odd", Kids: []node{{Kind: "zip", Name: ".../n1.zip", Kids: []node{{Kind: "file", Name: "..../...../f", Size: 2}}}, {Kind: "file", Name: "h", Size: 1}}})
 	// nested archive and a sibling directory with the name the nested archive is extracted to
 	out = append(out, archive{Family: "odd", Kids: []node{{Kind: "file", Name: "n1/f", Size: 2}, {Kind: "zip", Name: "n1.zip", Kids: []node{{Kind: "file", Name: "g", Size: 3}}}}})
 	return out
